@@ -97,6 +97,17 @@ func recoverFile(info types.SegmentInfo, wf types.WritableFile, bufPool *sync.Po
 		return nil, err
 	}
 
+	if w.writer.indexStart > 0 {
+		// We recovered a sealed tail. We can't tell whether the process died
+		// before or after the fsync of the batch that sealed it - we may just have
+		// read it back from the OS cache. Nothing will ever write to (and so
+		// fsync) this file again once the WAL has rotated to the next segment, so
+		// make sure it is durable now.
+		if err := w.wf.Sync(); err != nil {
+			return nil, err
+		}
+	}
+
 	return w, nil
 }
 
